@@ -244,4 +244,21 @@ PROPS = {
                  4: "cache contents afterwards"},
         "assumptions": ["fewer events outstanding than the buffer holds (65536)", "handlers registered before the history starts"],
     },
+    "C13": {
+        "level_text": ("Theorems (Props/C13.v, axiom-free) over a heap model of Go models (a struct held by value whose pointer, slice and map fields refer to cells; aliasing = a "
+                       "shared cell): Clone yields an equal model sharing no cell; from any state where no cell is shared between a cached model and a model the caller holds "
+                       "(true initially, preserved by every step), no sequence of reads, field overwrites, writes through pointers / slice elements / map entries, appends, or "
+                       "writes of other rows changes what the cache returns for a row; a model handed to the cache is stored by value; a cell-sharing copy is refuted. Tied to "
+                       "the code by op sequences on a real RowCache (reads through Row, Rows, RowByModel, RowsByModels, RowsByCondition; Create/Update with models the caller "
+                       "keeps mutating), compared step by step with the model. Partial: that each further Go path copies (event handlers, client Get/List/Where...List) and "
+                       "Equal's laws (reflexive, symmetric, distinguishing; run-time structs through JSON and a generated model with its own deep copy) are decided by the "
+                       "driver's direct oracle only."),
+        "level_note": ("Trusted: Coq kernel + vm_compute, std++; Go harness (reflection-based mutation of run-time structs). RowsShallow is the documented read-only exception "
+                       "and is not exercised."),
+        "rule": ("sequences of 24 (thorough 40) steps: build a model, Create/Update a row with a held model, read a row through one of 5 paths, or mutate a held model in one of "
+                 "the ways a caller can (9 fields of all kinds); after every step all rows are read again. Plus per run: client rounds (server + client; event-handler models, "
+                 "Get, List, Where.List mutated), Clone/CloneInto/Equal laws on 4 x cases run-time structs and 2 x cases generated models. Non-trivial: >= 3 mutations and >= 2 rows."),
+        "tags": {1: "rows read from the cache after the step vs the model", 9: "the model cannot perform the step (write through a nil reference)"},
+        "assumptions": [],
+    },
 }
